@@ -89,6 +89,8 @@ Record fill_result (cp : Z -> Z) (balance : bool) (r t : nat) (dir : Z)
   fr_last : exists x rest, new = x :: rest /\ r_day x = dl;
   fr_nodup : NoDup (map r_day new);
   fr_cap : forall x, In x new -> used balance l' r (r_day x) t <= cp (r_day x);
+  (* if the first day looked at has free capacity, it gets a reservation *)
+  fr_first : 0 < cp (d + dir) - used balance l r (d + dir) t -> exists x, In x new /\ r_day x = d + dir;
   (* every day strictly between the start and the last day is full afterwards *)
   fr_tight : forall k kl, dl = d + dir * Z.of_nat kl -> (0 < k < kl)%nat ->
                           cp (d + dir * Z.of_nat k) - used balance l' r (d + dir * Z.of_nat k) t <= 0 }.
@@ -137,7 +139,7 @@ Proof.
     destruct (Z.ltb_spec 0 (left - amount)) as [Hmore|Hdone].
     + (* more to place: the day is now full *)
       assert (Hfull : amount = avail) by (unfold amount in *; lia).
-      destruct (IH _ _ _ _ _ H Hmore) as [new1 R]. destruct R as [Ra Rr Rs Rl Rn Rc Rt].
+      destruct (IH _ _ _ _ _ H Hmore) as [new1 R]. destruct R as [Ra Rr Rs Rl Rn Rc Rf Rt].
       exists (new1 ++ [x]).
       assert (Hdays : forall y, In y new1 -> r_res y = r /\ r_task y = t /\ r_day y <> d').
       { intros y Hy. destruct (Rr y Hy) as [A [B [_ [k [Hk [Hd _]]]]]]. repeat split; try assumption.
@@ -162,6 +164,7 @@ Proof.
         -- apply Rc. exact Hy.
         -- simpl. rewrite Ra, used_app, used_cons; unfold x; rewrite hits_row, Z.eqb_refl.
            rewrite (used_new_other balance new1 r t d' Hdays). simpl. unfold avail in Hfull. lia.
+      * intros _. exists x. split; [apply in_or_app; right; left; reflexivity | reflexivity].
       * intros k kl Hdl Hk. destruct (Nat.eq_dec k 1) as [->|Hk1].
         -- replace (d + dir * Z.of_nat 1) with d' by (unfold d'; lia).
            rewrite Ra, used_app, used_cons; unfold x; rewrite hits_row, Z.eqb_refl.
@@ -178,15 +181,17 @@ Proof.
       * exists x, []. split; reflexivity.
       * simpl. constructor; [intros [] | constructor].
       * intros y [<-|[]]. simpl. rewrite used_cons; unfold x; rewrite hits_row, Z.eqb_refl. simpl. unfold amount, avail in *. lia.
+      * intros _. exists x. split; [left; reflexivity | reflexivity].
       * intros k kl Hdl Hk. exfalso. assert (dir * Z.of_nat kl = dir * 1) by (unfold d' in Hdl; lia).
         apply Z.mul_reg_l in H0; [lia | exact Hdir].
   - (* nothing free on d' *)
     destruct (Z.ltb_spec 0 left) as [_|Hc]; [|lia].
-    destruct (IH _ _ _ _ _ H Hleft) as [new1 R]. destruct R as [Ra Rr Rs Rl Rn Rc Rt].
+    destruct (IH _ _ _ _ _ H Hleft) as [new1 R]. destruct R as [Ra Rr Rs Rl Rn Rc Rf Rt].
     exists new1. constructor; try assumption.
     + intros y Hy. destruct (Rr y Hy) as [A [B [C [k [Hk [Hd [kl [Hkl Hdl]]]]]]]]. repeat split; try assumption.
       exists (S k). split; [lia|]. split; [unfold d' in Hd; lia|].
       exists (S kl). split; [lia | unfold d' in Hdl; lia].
+    + intros Hfree. exfalso. fold d' in Hfree. fold avail in Hfree. lia.
     + intros k kl Hdl Hk. destruct (Nat.eq_dec k 1) as [->|Hk1].
       * replace (d + dir * Z.of_nat 1) with d' by (unfold d'; lia).
         assert (Hdays : forall y, In y new1 -> r_res y = r /\ r_task y = t /\ r_day y <> d').
